@@ -201,7 +201,9 @@ class AnalysisInvariance(DesignPart):
 
     def harness(self, chk):
         self.bases(chk)
-        def h(ctx): self.run(chk, ctx, SymInputs(ctx))
+        def h(ctx):
+            ctx.step_limit = max(ctx.step_limit, 60_000_000)
+            self.run(chk, ctx, SymInputs(ctx))
         return h
 
     def text_of(self, w):
